@@ -24,6 +24,9 @@ use std::time::Duration;
 pub enum Mode {
     Decode,
     Skip,
+    /// Two decodes of the subject one after the other through the *same* wrapper stack instance
+    /// (the first result is discarded, even if it is an error).
+    Twice,
     /// `T::decode_all(&mut &[u8])` (slice base only)
     DecodeAll,
     /// `T::decode_with_depth_limit(l, &mut &[u8])` directly on the slice base
@@ -260,6 +263,16 @@ fn decode_dyn_op<T: Modelled + Decode>(inp: &mut dyn DynInput, layers: &[crate::
             let window = window_end();
             DynOut { res: r.map(|_| V::Unit).map_err(err_s), layers: take_layer_report(), payload: 0, window }
         },
+        Mode::Twice => {
+            window_begin();
+            let r = Cont::<TwiceOf<T>>::decode(&mut DynAdapter(inp)).map(|c| (c.0).0);
+            let window = window_end();
+            let layers = take_layer_report();
+            match r {
+                Ok(t) => DynOut { payload: t.heap_payload(), res: Ok(t.to_model()), layers, window },
+                Err(e) => DynOut { res: Err(err_s(e)), layers, payload: 0, window },
+            }
+        },
         _ => {
             window_begin();
             let r = Cont::<DecodeOf<T>>::decode(&mut DynAdapter(inp)).map(|c| (c.0).0);
@@ -432,6 +445,8 @@ pub fn build_catalogue() -> Vec<Subject> {
         // tuples led by a collection (DecodeLength delegates to the first member)
         (Vec<u32>, u8) [mem, len]; (BTreeMap<u8, u8>,) [mem, len]; (VecDeque<u16>, String, u8) [mem, len]; (LinkedList<u16>, u8) [mem, len]; (BTreeSet<u16>, Vec<u8>) [mem, len]; (BinaryHeap<u32>, bool) [mem, len]; (Vec<()>, u32) [mem, len];
         // more shapes
+        Box<Unit1> [mem]; Rc<Unit9> [mem]; Arc<(Unit1, Unit9)> [mem]; Vec<Box<Unit1>> [mem, len]; (Box<Unit9>, u16) [mem]; Option<Box<Unit1>> [mem]; BTreeMap<u8, Box<Unit9>> [mem, len]; Box<[Unit1; 3]> [mem];
+        (BTreeMap<u8, u8>, BTreeMap<u8, u8>) [mem, len]; Vec<BTreeMap<u8, u8>> [mem, len]; (BTreeSet<u16>, Vec<String>) [mem, len]; [BTreeMap<u8, u8>; 3] [mem]; (LinkedList<u16>, LinkedList<u16>) [mem, len]; Vec<BTreeSet<u8>> [mem, len]; Vec<LinkedList<u8>> [mem, len]; (Vec<String>, Vec<String>, Box<u8>) [mem, len];
         Vec<[u16; 0]> [mem, len]; Vec<[bool; 0]> [mem, len]; VecDeque<[[u32; 4]; 0]> [mem, len]; BTreeSet<[u8; 0]> [mem, len]; LinkedList<[u64; 0]> [mem, len, empty_alloc]; Option<[u16; 0]> [mem]; Vec<(u8, [u16; 0])> [mem, len];
         Cow<'static, [u32]>; Arc<String> [mem]; Option<NonZeroU32> [mem]; Vec<NonZeroU8> [mem, len]; BTreeSet<(u8, u8)> [mem, len]; BTreeMap<String, BTreeMap<u8, u8>> [mem, len];
         LinkedList<LinkedList<u8>> [mem, len]; VecDeque<VecDeque<u16>> [mem, len]; BinaryHeap<(u8, u8)> [mem, len]; BinaryHeap<Vec<u8>> [mem, len]; Vec<Compact<u8>> [mem, len]; Result<(), ()> [mem]; Option<()> [mem]; Option<Vec<()>> [mem];
